@@ -34,3 +34,7 @@ Proof. vm_cast_no_check (eq_refl true). Qed.
 Lemma cap_ok_upto_bound n : (1 <= n)%nat -> Z.of_nat n <= CAP_BOUND -> cap_ok cap_c n.
 Proof. intros H1 H2. apply cap_okb_spec. rewrite cap_okZ_spec.
   apply (sweep_sound cap_c 16 1); [exact cap_sweep|]. unfold CAP_BOUND in H2. cbn. lia. Qed.
+Lemma keeps_one_upto_bound {A} be (b : body A) d s r kept :
+  (1 <= frames b)%nat -> Z.of_nat (frames b) <= CAP_BOUND ->
+  possible_draw cap_c (frames b) (fraction d) s -> dropout cap_c be b d s = Ok (r, kept) -> (1 <= length kept)%nat.
+Proof. intros H1 H2. apply keeps_one_if_cap_ok. now apply cap_ok_upto_bound. Qed.
